@@ -11,7 +11,7 @@ CONSTANTS
   Rich = FALSE
   TextLen = 0
   Chars = {}
-  IntParts = {0, 1, 7, 255, 4095, 16382, 16383}
+  IntParts = {0, 1, 16383}
   Sample = 1
 INVARIANTS InvScanPrint InvUnitsAsInTeX
 CHECK_DEADLOCK FALSE
